@@ -20,6 +20,14 @@ def observe(spec, inputs):
             tb = P.tighten_column_bounds()
             out["tb"] = [[int(v) for v in tb[0]], [int(v) for v in tb[1]]]
         else:
+            if spec.get("after_tighten"):
+                t1 = P.tighten_column_bounds()
+                P.reducable_columns_approx()
+                t2 = P.tighten_column_bounds()
+                cb = P.column_bounds()
+                out["tb1"] = [[int(v) for v in t1[0]], [int(v) for v in t1[1]]]
+                out["tb2"] = [[int(v) for v in t2[0]], [int(v) for v in t2[1]]]
+                out["cb"] = [[int(v) for v in cb[0]], [int(v) for v in cb[1]]]
             rb = P.row_bounds()
             out["rb"] = [[int(r[0]), int(r[1])] for r in rb]
             out["nrc"] = [int(v) for v in P.n_row_combinations]
@@ -55,4 +63,9 @@ def judge(spec, inputs, out, ob):
                     cnt *= (hi[j] - lo[j] + 1)
             if out["nrc"][i] != cnt:
                 bad.append("row %d combination count %d, enumeration gives %d" % (i, out["nrc"][i], cnt))
+        if spec.get("after_tighten"):
+            if out["cb"] != [lo, hi]:
+                bad.append("column_bounds() after tighten_column_bounds() is %s, declared %s" % (out["cb"], [lo, hi]))
+            if out["tb1"] != out["tb2"]:
+                bad.append("tighten_column_bounds() is not stable across calls: %s then %s" % (out["tb1"], out["tb2"]))
     return bool(bad), "; ".join(bad) + " | A=%s inputs=%s" % (A, inputs)
